@@ -2,9 +2,11 @@
 //! Every call into /repo code is wrapped in catch_unwind: a panic is an observation.
 mod dep_run;
 mod edits_run;
+mod fmt_run;
 mod front;
 mod heap_run;
 mod lex_run;
+mod lsp_run;
 mod mir_types;
 mod mirsem;
 mod ops_table;
@@ -30,9 +32,11 @@ fn main() {
   match args[1].as_str() {
     "dep-run" => dep_run::main(rest),
     "edits-run" => edits_run::main(rest),
+    "fmt-run" => fmt_run::main(rest),
     "front" => front::main(rest),
     "heap-run" => heap_run::main(rest),
     "lex-run" => lex_run::main(rest),
+    "lsp-run" => lsp_run::main(rest),
     "mir-types" => mir_types::main(rest),
     "mir-run" => mirsem::main(rest),
     "ops-table" => ops_table::main(rest),
